@@ -134,6 +134,8 @@ pub fn c08_configs(thorough: bool) -> Vec<EpCfg> {
                 c.alph.peer_sub = true;
                 c.alph.send_fail = true;
                 c.alph.defer_pubrel = true;
+                c.alph.early_peer_traffic = true;
+                c.alph.second_connack = true;
                 // erase_stored_publish() as the application's message-expiry hook: releases a stored PUBLISH,
                 // must not touch an exchange that is past PUBREC
                 c.alph.erase = true;
@@ -248,6 +250,7 @@ pub fn c12_configs(thorough: bool) -> Vec<EpCfg> {
                     c.alph.pub_q = vec![1, 2];
                     c.alph.erase = true;
                     c.alph.defer_pubrel = !auto;
+                    c.alph.early_peer_traffic = true;
                     // refusals in between: an alias above the peer's Topic Alias Maximum (the limit test has
                     // passed by then), a packet larger than the peer accepts
                     c.alph.als = vec![Al::No, Al::Reg(3)];
